@@ -120,6 +120,8 @@ JOBS = {
     "md_lang_mixc": dict(fam="am1_md", mol="mixc", kind="md", eng="langevin"),
     "md_xlesmd_h2co": dict(fam="am1_esmd", mol="h2co", kind="md", eng="xl_esmd"),
     "md_excbasic_h2co": dict(fam="am1_esmd", mol="h2co", kind="md", eng="basic"),
+    "md_excxl_h2co": dict(fam="am1_esmd", mol="h2co", kind="md", eng="xl"),
+    "cis_esmd_h2co": dict(fam="am1_esmd", mol="h2co", kind="sp"),
     "md_sh_h2co": dict(fam="am1_sh", mol="h2co", kind="md", eng="sh"),
     "cis2_h2co": dict(fam="am1_sh", mol="h2co", kind="sp"),
     "opt_h2o": dict(fam="am1_md", mol="h2o", kind="opt"),
